@@ -1,5 +1,6 @@
 import Mercure.Model.Config
 import Mercure.Generated.Facts
+import Mercure.Model.TransportCfg
 /-
   C19 — Configuration is applied faithfully and fails closed.
   Over the model of the Caddy module (UnmarshalCaddyfile + Provision) and of the legacy viper options
@@ -246,6 +247,201 @@ theorem C19_counterexample_found :
     (∃ e, provisionLegacy ⟨false, false⟩ { pubKey := .text } = .ok e ∧ e.subAlg = none ∧ e.anonymous = false) ∧
     (∃ e, provisionLegacy ⟨false, false⟩ { jwtKey := .text, hb := some 0 } = .ok e ∧ e.hb = 40000) := by
   exact ⟨⟨_, rfl, rfl, rfl⟩, ⟨_, rfl, rfl⟩⟩
+
+/-! ### transport: which one, with which parameters (Caddy `transport` directive, `transport_url`) -/
+section Transport
+open Mercure.TransportCfg
+
+theorem digitsVal_append (a b : Str) (acc : Nat) :
+    digitsVal (a ++ b) acc = (digitsVal a acc).bind (digitsVal b) := by
+  induction a generalizing acc with
+  | nil => rfl
+  | cons c cs ih =>
+    simp only [List.cons_append, digitsVal]
+    cases digitVal c with
+    | none => rfl
+    | some d => exact ih _
+
+/-- `parseUint64` accepts exactly the non-empty digit strings whose value fits in 64 bits, and
+    returns that value. -/
+theorem parseUint64_spec (s : Str) (n : Nat) :
+    parseUint64 s = some n ↔ s ≠ [] ∧ digitsVal s 0 = some n ∧ n < 2 ^ 64 := by
+  unfold parseUint64
+  by_cases hs : s = []
+  · subst hs; simp
+  · have : (s == []) = false := by simpa using hs
+    rw [this]
+    simp only [Bool.false_eq_true, if_false]
+    cases h : digitsVal s 0 with
+    | none => simp [hs]
+    | some m =>
+      simp only
+      by_cases hm : m < 2 ^ 64
+      · rw [if_pos hm]
+        constructor
+        · intro e; cases e; exact ⟨hs, rfl, hm⟩
+        · intro ⟨_, e, _⟩; cases e; rfl
+      · rw [if_neg hm]
+        constructor
+        · intro e; cases e
+        · intro ⟨_, e, hn⟩; cases e; exact absurd hn hm
+
+/-- A size that is given and well-formed is the size in effect (directive form) — exactly, below 2^53;
+    from 2^53 on it is whatever the JSON re-encoding through a float64 makes of it (`rt`). -/
+theorem bolt_block_size_applied (rt : Nat → Option Nat) (b : BoltBlock) (e : Eff) (s : Str)
+    (hs : b.size = some s) (h : provisionBoltBlock rt b = .ok e) :
+    e.kind = .bolt ∧ ∃ n, parseUint64 s = some n ∧ (n < 2 ^ 53 → e.size = n) ∧ (¬ n < 2 ^ 53 → rt n = some e.size) := by
+  unfold provisionBoltBlock at h
+  rw [hs] at h
+  simp only [blockSize] at h
+  cases hp : parseUint64 s with
+  | none => rw [hp] at h; cases h
+  | some n =>
+    rw [hp] at h
+    simp only at h
+    cases hsz : (if n < 2 ^ 53 then some n else rt n) with
+    | none => rw [hsz] at h; cases h
+    | some sz =>
+      rw [hsz] at h
+      simp only at h
+      have hsize : e.size = sz ∧ e.kind = .bolt := by
+        cases hf : b.freq with
+        | none => rw [hf] at h; cases h; exact ⟨rfl, rfl⟩
+        | some f =>
+          rw [hf] at h
+          simp only at h
+          by_cases hv : (!f.valid) = true
+          · rw [if_pos hv] at h; cases h
+          · rw [if_neg hv] at h; cases h; exact ⟨rfl, rfl⟩
+      refine ⟨hsize.2, n, rfl, ?_, ?_⟩
+      · intro hn; rw [if_pos hn] at hsz; cases hsz; exact hsize.1
+      · intro hn; rw [if_neg hn] at hsz; rw [hsize.1]; exact hsz
+
+/-- A malformed size or frequency never yields a transport (directive form): fail closed. -/
+theorem bolt_block_invalid_rejected (rt : Nat → Option Nat) (b : BoltBlock) :
+    ((∃ s, b.size = some s ∧ parseUint64 s = none) ∨ (∃ f, b.freq = some f ∧ f.valid = false)) →
+    ∃ err, provisionBoltBlock rt b = .error err := by
+  intro h
+  unfold provisionBoltBlock
+  rcases h with ⟨s, hs, hp⟩ | ⟨f, hf, hv⟩
+  · rw [hs]; simp only [blockSize]; rw [hp]; exact ⟨_, rfl⟩
+  · cases hsz : blockSize rt b.size with
+    | none => exact ⟨_, rfl⟩
+    | some sz => simp only [hf, hv]; exact ⟨_, rfl⟩
+
+/-- Omitted sub-directives: nothing is ever discarded (size 0), bucket `updates`, file `bolt.db`; the
+    cleanup frequency the module passes is the zero value. -/
+theorem bolt_block_defaults (rt : Nat → Option Nat) :
+    provisionBoltBlock rt {} = .ok { kind := .bolt, path := defaultPath, bucket := defaultBucket, size := 0, freq := zeroFreq } := by
+  rfl
+
+/-- URL form: the parameters given are the ones in effect; an omitted cleanup frequency is 0.3. -/
+theorem url_effective (u : URL) (e : Eff) (hb : u.scheme = "bolt".toList) (h : provisionURL u = .ok e) :
+    e.kind = .bolt ∧
+    (u.size = [] → e.size = 0) ∧ (u.size ≠ [] → parseUint64 u.size = some e.size) ∧
+    (u.freq = [] → e.freq = defaultFreqURL) ∧ (u.freq ≠ [] → u.freqArg.valid = true ∧ e.freq = u.freqArg.canon) ∧
+    (u.bucket = [] → e.bucket = defaultBucket) ∧ (u.bucket ≠ [] → e.bucket = u.bucket) ∧
+    e.path = (if u.path = [] then u.host else u.path) ∧ e.path ≠ [] := by
+  unfold provisionURL at h
+  have hl : (u.scheme == "local".toList) = false := by rw [hb]; decide
+  have hbb : (u.scheme == "bolt".toList) = true := by rw [hb]; decide
+  rw [hl, hbb] at h
+  simp only [Bool.false_eq_true, if_false, if_true] at h
+  cases hsz : urlSize u.size with
+  | none => rw [hsz] at h; cases h
+  | some size =>
+    rw [hsz] at h
+    simp only at h
+    unfold urlSize at hsz
+    by_cases hfr : (u.freq != [] && !u.freqArg.valid) = true
+    · rw [if_pos hfr] at h; cases h
+    · rw [if_neg hfr] at h
+      by_cases hp : (if u.path == [] then u.host else u.path) == []
+      · simp only [hp, if_true] at h; cases h
+      · simp only [hp] at h
+        have hp' : (if u.path == [] then u.host else u.path) ≠ [] := by simpa using hp
+        cases h
+        have hpathne : (if u.path = [] then u.host else u.path) ≠ [] := by
+          by_cases h0 : u.path = []
+          · simp [h0] at hp' ⊢; exact hp'
+          · simp [h0]
+        have hpe : (if u.path == [] then u.host else u.path) = (if u.path = [] then u.host else u.path) := by
+          by_cases h0 : u.path = [] <;> simp [h0]
+        refine ⟨rfl, ?_, ?_, ?_, ?_, ?_, ?_, ?_, ?_⟩
+        · intro h0; simp [h0] at hsz; simp [newBolt, hsz]
+        · intro h0
+          have : (u.size == []) = false := by simpa using h0
+          rw [this] at hsz; simpa [newBolt] using hsz
+        · intro h0; simp [newBolt, h0]
+        · intro h0
+          have hne : (u.freq != []) = true := by simpa using h0
+          rw [hne] at hfr
+          have hv : u.freqArg.valid = true := by
+            cases hvv : u.freqArg.valid <;> simp [hvv] at hfr ⊢
+          exact ⟨hv, by simp [newBolt, h0]⟩
+        · intro h0; simp [newBolt, h0]
+        · intro h0; simp [newBolt, h0]
+        · simp only [newBolt]; rw [hpe]; simp [hpathne]
+        · simp only [newBolt]; rw [hpe]; simp [hpathne]
+
+/-- URL form, fail closed: an unknown scheme, a malformed size or frequency, or no path give no transport. -/
+theorem url_invalid_rejected (u : URL) :
+    (u.scheme ≠ "local".toList ∧ u.scheme ≠ "bolt".toList) ∨
+    (u.scheme = "bolt".toList ∧ (
+      (u.size ≠ [] ∧ parseUint64 u.size = none) ∨ (u.freq ≠ [] ∧ u.freqArg.valid = false) ∨
+      (u.path = [] ∧ u.host = []))) →
+    ∃ err, provisionURL u = .error err := by
+  intro h
+  unfold provisionURL
+  rcases h with ⟨h1, h2⟩ | ⟨hb, h⟩
+  · have a : (u.scheme == "local".toList) = false := by simpa using h1
+    have b : (u.scheme == "bolt".toList) = false := by simpa using h2
+    rw [a, b]; exact ⟨_, rfl⟩
+  · have hl : (u.scheme == "local".toList) = false := by rw [hb]; decide
+    have hbb : (u.scheme == "bolt".toList) = true := by rw [hb]; decide
+    rw [hl, hbb]
+    simp only [Bool.false_eq_true, if_false, if_true]
+    rcases h with ⟨hs, hp⟩ | ⟨hf, hv⟩ | ⟨hp, hh⟩
+    · have : (u.size == []) = false := by simpa using hs
+      unfold urlSize
+      rw [this]; simp only [Bool.false_eq_true, if_false]; rw [hp]; exact ⟨_, rfl⟩
+    · cases hsz : urlSize u.size with
+      | none => exact ⟨_, rfl⟩
+      | some sz =>
+        have : (u.freq != [] && !u.freqArg.valid) = true := by simp [hf, hv]
+        simp only [this, if_true]; exact ⟨_, rfl⟩
+    · cases hsz : urlSize u.size with
+      | none => exact ⟨_, rfl⟩
+      | some sz =>
+        simp only
+        by_cases hfr : (u.freq != [] && !u.freqArg.valid) = true
+        · rw [if_pos hfr]; exact ⟨_, rfl⟩
+        · rw [if_neg hfr]; simp [hp, hh]
+
+/-- The deprecated URL, when present, decides alone; `transport local` gives the local transport;
+    with neither, the bolt module with its defaults. -/
+theorem caddy_transport_selection (rt : Nat → Option Nat) (d : Option Directive) (u : URL) :
+    provisionCaddyTransport rt d (some u) = provisionURL u ∧
+    provisionCaddyTransport rt (some .local_) none = .ok { kind := .local_ } ∧
+    provisionCaddyTransport rt none none = provisionBoltBlock rt {} := ⟨rfl, rfl, rfl⟩
+
+/-- Legacy options: a URL that is set decides; unset, the documented default bolt://updates.db (keep
+    everything, cleanup frequency 0.3) when the defaults are loaded, the local transport otherwise. -/
+theorem legacy_transport_selection (u : URL) (d : Bool) :
+    provisionLegacyTransport d (some u) = provisionURL u ∧
+    provisionLegacyTransport true none =
+      .ok { kind := .bolt, path := "updates.db".toList, bucket := defaultBucket, size := 0, freq := defaultFreqURL } ∧
+    provisionLegacyTransport false none = .ok { kind := .local_ } := ⟨rfl, rfl, rfl⟩
+
+/-- Non-vacuity / rendering round-trip on concrete arguments: "100" is 100, "007" is 7, 2^64 and
+    "1_0", "+1", "" are rejected. -/
+theorem parseUint64_examples :
+    parseUint64 "100".toList = some 100 ∧ parseUint64 "007".toList = some 7 ∧
+    parseUint64 "18446744073709551615".toList = some (2 ^ 64 - 1) ∧
+    parseUint64 "18446744073709551616".toList = none ∧ parseUint64 "1_0".toList = none ∧
+    parseUint64 "+1".toList = none ∧ parseUint64 [] = none := by decide
+end Transport
+
 end Mercure.C19
 
 
@@ -262,3 +458,12 @@ end Mercure.C19
 #print axioms Mercure.C19.legacy_durations_applied
 #print axioms Mercure.C19.repo_legacy_flags
 #print axioms Mercure.C19.C19_counterexample_found
+#print axioms Mercure.C19.parseUint64_spec
+#print axioms Mercure.C19.bolt_block_size_applied
+#print axioms Mercure.C19.bolt_block_invalid_rejected
+#print axioms Mercure.C19.bolt_block_defaults
+#print axioms Mercure.C19.url_effective
+#print axioms Mercure.C19.url_invalid_rejected
+#print axioms Mercure.C19.caddy_transport_selection
+#print axioms Mercure.C19.parseUint64_examples
+#print axioms Mercure.C19.legacy_transport_selection
